@@ -901,9 +901,24 @@ static void cmd_fdf(int nt, char **t)
  * LS <h> <flags>                                                              serialize with locale monitors
  */
 static locale_t my_thread_locale;
+static int cur_locmode;
+static int apply_loc(int mode)
+{
+	const char *g;
+	uselocale(LC_GLOBAL_LOCALE);
+	if (my_thread_locale) { freelocale(my_thread_locale); my_thread_locale = (locale_t)0; }
+	g = setlocale(LC_ALL, (mode & 1) ? "xx_XX" : "C");
+	if (mode & 2) {
+		my_thread_locale = newlocale(LC_ALL_MASK, "xx_XX", (locale_t)0);
+		if (!my_thread_locale) return 0;
+		uselocale(my_thread_locale);
+	}
+	return g != NULL;
+}
 static void cmd_loc(int nt, char **t)
 {
 	int mode = (int)L(t[1]); const char *g; (void)nt;
+	cur_locmode = mode;
 	uselocale(LC_GLOBAL_LOCALE);
 	if (my_thread_locale) { freelocale(my_thread_locale); my_thread_locale = (locale_t)0; }
 	g = setlocale(LC_ALL, (mode & 1) ? "xx_XX" : "C");
@@ -933,6 +948,25 @@ static void cmd_lp(int nt, char **t)
 	b = unhex(t[4], &n);
 	tok = depth > 0 ? json_tokener_new_ex(depth) : json_tokener_new();
 	json_tokener_set_flags(tok, flags);
+	buf = exact_copy(b, n + 1); buf[n] = 0;
+	loc_observe(&x);
+	o = json_tokener_parse_ex(tok, buf, mode == 0 ? (int)n : mode == 1 ? (int)n + 1 : mode == 2 ? -1 : -2);
+	loc_observe(&y);
+	emit_parse_result(tok, o);
+	loc_report(&x, &y);
+	json_object_put(o); json_tokener_free(tok); free(buf); free(b);
+}
+/* LPT <flags> <depth> <mode> <hex> <warm 0|1>: like LP, but the tokener is OLDER than the locale: it is created (and, with warm, used for one document) while the
+ * "C" locale is in effect everywhere, then the configuration chosen by the last LOC is installed, then the text is parsed */
+static void cmd_lpt(int nt, char **t)
+{
+	size_t n; unsigned char *b; char *buf; struct json_tokener *tok; struct json_object *o; struct locobs x, y; int flags = (int)L(t[1]), depth = (int)L(t[2]), mode = (int)L(t[3]); int saved = cur_locmode;
+	b = unhex(t[4], &n);
+	apply_loc(0);
+	tok = depth > 0 ? json_tokener_new_ex(depth) : json_tokener_new();
+	json_tokener_set_flags(tok, flags);
+	if (nt > 5 && L(t[5])) { o = json_tokener_parse_ex(tok, "[0.5]", 6); json_object_put(o); }
+	if (!apply_loc(saved)) { ob_puts(&out, "! locale"); json_tokener_free(tok); free(b); return; }
 	buf = exact_copy(b, n + 1); buf[n] = 0;
 	loc_observe(&x);
 	o = json_tokener_parse_ex(tok, buf, mode == 0 ? (int)n : mode == 1 ? (int)n + 1 : mode == 2 ? -1 : -2);
@@ -1156,6 +1190,7 @@ static void dispatch(int nt, char **t)
 	else if (!strcmp(c, "LP")) cmd_lp(nt, t);
 	else if (!strcmp(c, "LS")) cmd_ls(nt, t);
 	else if (!strcmp(c, "LPC")) cmd_lpc(nt, t);
+	else if (!strcmp(c, "LPT")) cmd_lpt(nt, t);
 	else if (!strcmp(c, "DFMT")) cmd_dfmt(nt, t);
 	else if (!strcmp(c, "SERFMT")) cmd_serfmt(nt, t);
 	else if (!strcmp(c, "FDW")) cmd_fdw(nt, t);
